@@ -497,6 +497,39 @@ impl VersionSet {
                 );
 
                 version_set.append_new_version(new_version);
+                #[cfg(raindb_verif)]
+                if crate::verif_hooks::events::is_installed() {
+                    let key = |k: &InternalKey| {
+                        (
+                            k.get_user_key().to_vec(),
+                            k.get_sequence_number(),
+                            k.get_operation() as u8,
+                        )
+                    };
+                    crate::verif_hooks::events::emit(
+                        crate::verif_hooks::events::Event::VersionInstalled {
+                            deleted: change_manifest
+                                .deleted_files
+                                .iter()
+                                .map(|d| (d.level, d.file_number))
+                                .collect(),
+                            added: change_manifest
+                                .new_files
+                                .iter()
+                                .map(|(level, f)| {
+                                    (
+                                        *level,
+                                        f.file_number(),
+                                        f.get_file_size(),
+                                        key(f.smallest_key()),
+                                        key(f.largest_key()),
+                                    )
+                                })
+                                .collect(),
+                            last_sequence: version_set.prev_sequence_number,
+                        },
+                    );
+                }
                 version_set.curr_wal_number = change_manifest.wal_file_number.unwrap();
                 version_set.prev_wal_number = change_manifest.prev_wal_file_number;
             }
